@@ -164,7 +164,7 @@ Proof.
     cbn [app]. intros c' r E. inversion E; subst. exact Hnc.
 Qed.
 
-(* ---- programs: lists of expression statements and empty statements -------------------------------------------------- *)
+(* ---- programs: lists of expression statements, empty statements and labelled statements ------------------------------ *)
 
 (* an expression statement in front of [rest] *)
 Definition estmt (xs : list token) (x : expr) (rest : list token) : Prop :=
@@ -177,48 +177,65 @@ Definition same_line_semi (ts : list token) : bool :=
   | [] => false
   end.
 
-(* StatementList over ExpressionStatement and EmptyStatement, with automatic semicolon insertion.
-   PG_empty leaves out one shape: an EmptyStatement directly followed by a ';' on the same line (`;;`), where the
-   code drops the second one (KNOWN_FINDINGS c03-tree:empty-statement-same-line). *)
+(* an identifier that can be a label: not `let`, not a word with a statement arm of its own (async) *)
+Definition label_tok (k : token) : Prop :=
+  is_identifier (ty k) = true /\ ty k <> tt_LetToken /\ stmt_keyword (ty k) = false.
+
+(* [one ts s rest]: the statement s, spelled by the tokens of ts in front of rest.
+     ExpressionStatement : Expression ;      with automatic semicolon insertion (O_asi, O_eof)
+     EmptyStatement : ;
+     LabelledStatement : LabelIdentifier : Statement
+   O_empty and O_label leave out one shape: the statement directly followed by a ';' on the same line (`;;`, `l: x;;`),
+   where the code drops that EmptyStatement (KNOWN_FINDINGS c03-tree:empty-statement-same-line). *)
+Inductive one : list token -> stmt -> list token -> Prop :=
+| O_eof xs x : estmt xs x [] -> one xs (SExpr x) []
+| O_semi xs x k rest : estmt xs x (k :: rest) -> ty k = tt_SemicolonToken -> one (xs ++ k :: rest) (SExpr x) rest
+| O_asi xs x c rest :
+    estmt xs x (c :: rest) -> lt c = true -> ncont true prec_OpExpr (c :: rest) = true ->
+    ty c <> tt_SemicolonToken -> ty c <> tt_ColonToken ->
+    one (xs ++ c :: rest) (SExpr x) (c :: rest)
+| O_empty k rest : ty k = tt_SemicolonToken -> same_line_semi rest = false -> one (k :: rest) SEmpty rest
+| O_label k c ts s rest :
+    label_tok k -> ty c = tt_ColonToken -> one ts s rest -> same_line_semi rest = false ->
+    one (k :: c :: ts) (SLabel (data k) s) rest.
+
+(* StatementList *)
 Inductive prog : list token -> list stmt -> Prop :=
 | PG_nil : prog [] []
-| PG_eof xs x : estmt xs x [] -> prog xs [SExpr x]
-| PG_semi xs x k rest l :
-    estmt xs x (k :: rest) -> ty k = tt_SemicolonToken -> prog rest l ->
-    prog (xs ++ k :: rest) (SExpr x :: l)
-| PG_asi xs x c rest l :
-    estmt xs x (c :: rest) -> lt c = true -> ncont true prec_OpExpr (c :: rest) = true ->
-    ty c <> tt_SemicolonToken -> prog (c :: rest) l ->
-    prog (xs ++ c :: rest) (SExpr x :: l)
-| PG_empty k rest l :
-    ty k = tt_SemicolonToken -> same_line_semi rest = false -> prog rest l ->
-    prog (k :: rest) (SEmpty :: l).
-
-Lemma starts_not_colon k : starts_expr k -> ty k <> tt_ColonToken.
-Proof.
-  unfold starts_expr. intros H E. unfold pview in H; rewrite E in H; vm_compute in H; exact H.
-Qed.
-
-Lemma prog_first_gen ts l : prog ts l -> forall c rest, ts = c :: rest -> ty c = tt_SemicolonToken \/ starts_expr c.
-Proof.
-  destruct 1 as [|xs x [d _]|xs x k r l [d _] _ _|xs x c' r l [d _] _ _ _ _|k r l Hk _ _]; intros c0 rest0 E.
-  - discriminate.
-  - destruct (derives_spells _ _ _ _ d) as [Hs _]. destruct (spells_first _ _ _ Hs) as [k0 [xs' [E' Hst]]].
-    rewrite E' in E. inversion E; subst. right. exact Hst.
-  - destruct (derives_spells _ _ _ _ d) as [Hs _]. destruct (spells_first _ _ _ Hs) as [k0 [xs' [E' Hst]]].
-    rewrite E' in E. cbn [app] in E. inversion E; subst. right. exact Hst.
-  - destruct (derives_spells _ _ _ _ d) as [Hs _]. destruct (spells_first _ _ _ Hs) as [k0 [xs' [E' Hst]]].
-    rewrite E' in E. cbn [app] in E. inversion E; subst. right. exact Hst.
-  - inversion E; subst. left. exact Hk.
-Qed.
-
-Lemma prog_first c rest l : prog (c :: rest) l -> ty c = tt_SemicolonToken \/ starts_expr c.
-Proof. intros H. exact (prog_first_gen _ _ H c rest eq_refl). Qed.
+| PG_cons ts s rest l : one ts s rest -> prog rest l -> prog ts (s :: l).
 
 Lemma derives_nonempty inf n xs x : derives inf n xs x -> (1 <= length xs)%nat.
 Proof.
   intros d. destruct (derives_spells _ _ _ _ d) as [Hs _]. destruct (spells_first _ _ _ Hs) as [k0 [xs' [E _]]].
   subst xs. cbn [length]. lia.
+Qed.
+
+Lemma skip_same_line rest : same_line_semi rest = false -> skip_semi false rest = rest.
+Proof.
+  intros Hsl. destruct rest as [|c r]; [reflexivity|]. cbn [skip_semi same_line_semi] in *. cbn [orb]. rewrite Hsl. reflexivity.
+Qed.
+
+Lemma identifier_not_semicolon t : is_identifier t = true -> (t =? tt_SemicolonToken) = false.
+Proof. intros H. apply Z.eqb_neq. intros E. rewrite E in H. vm_compute in H. discriminate. Qed.
+
+(* parseStmt reads exactly that statement and stops in front of rest *)
+Lemma one_stmt ts s rest : one ts s rest ->
+  (length rest < length ts)%nat /\ forall m, (length ts <= S m)%nat -> parse_stmt (S m) ts = Ok (s, rest).
+Proof.
+  induction 1 as [xs x [d Hlet]|xs x k rest [d Hlet] Hk|xs x c rest [d Hlet] Hlt Hn Hns Hnc|k rest Hk Hsl
+                 |k c ts s rest [Hi [Hnl Hkw]] Hc Hone [IHl IH] Hsl].
+  - pose proof (derives_nonempty _ _ _ _ d) as Hl. rewrite app_nil_r in Hlet.
+    split; [cbn [length]; lia|]. intros m _. apply stmt_ends_at_eof_proof; assumption.
+  - pose proof (derives_nonempty _ _ _ _ d) as Hl.
+    split; [rewrite app_length; cbn [length]; lia|]. intros m _. apply stmt_ends_at_semicolon_proof; assumption.
+  - pose proof (derives_nonempty _ _ _ _ d) as Hl.
+    split; [rewrite app_length; cbn [length]; lia|]. intros m _. apply stmt_ends_at_line_break_proof; assumption.
+  - split; [cbn [length]; lia|]. intros m _. cbn [parse_stmt]. rewrite Hk, Z.eqb_refl.
+    rewrite (skip_same_line _ Hsl). reflexivity.
+  - split; [cbn [length]; lia|]. intros m Hm. cbn [parse_stmt].
+    rewrite (identifier_not_semicolon _ Hi), Hkw. apply Z.eqb_neq in Hnl. rewrite Hnl, Hi, Hc, Z.eqb_refl.
+    cbn [length] in Hm. destruct m as [|m']; [lia|].
+    rewrite IH by lia. cbn [rbind]. rewrite (skip_same_line _ Hsl). reflexivity.
 Qed.
 
 Lemma parse_module_cons m k ts acc :
@@ -228,37 +245,18 @@ Proof. reflexivity. Qed.
 Lemma prog_module ts l : prog ts l ->
   forall m acc, (length ts <= m)%nat -> parse_module (S m) ts acc = Ok (rev acc ++ l).
 Proof.
-  induction 1 as [|xs x [d Hlet]|xs x k rest l [d Hlet] Hk Hp IH|xs x c rest l [d Hlet] Hlt Hn Hns Hp IH|k rest l Hk Hsl Hp IH];
-    intros m acc Hm.
+  induction 1 as [|ts s rest l Hone Hp IH]; intros m acc Hm.
   - cbn. rewrite app_nil_r. reflexivity.
-  - pose proof (derives_nonempty _ _ _ _ d) as Hl. rewrite app_nil_r in Hlet.
-    destruct xs as [|k0 xs']; [cbn in Hl; lia|].
-    rewrite parse_module_cons, (stmt_ends_at_eof_proof _ _ _ d Hlet). cbn [rbind].
-    destruct m as [|m']; [cbn [length] in Hm; lia|]. reflexivity.
-  - pose proof (derives_nonempty _ _ _ _ d) as Hl.
-    rewrite app_length in Hm. cbn [length] in Hm.
-    destruct xs as [|k0 xs']; [cbn in Hl; lia|]. cbn [app].
-    rewrite parse_module_cons. change (k0 :: xs' ++ k :: rest) with ((k0 :: xs') ++ k :: rest).
-    rewrite (stmt_ends_at_semicolon_proof _ _ _ _ _ d Hlet Hk). cbn [rbind].
-    destruct m as [|m']; [lia|]. rewrite IH by lia. cbn [rev]. rewrite <- app_assoc. reflexivity.
-  - pose proof (derives_nonempty _ _ _ _ d) as Hl.
-    rewrite app_length in Hm. cbn [length] in Hm.
-    assert (Hnc : ty c <> tt_ColonToken).
-    { destruct (prog_first _ _ _ Hp) as [E|Hst]; [contradiction|apply starts_not_colon; exact Hst]. }
-    destruct xs as [|k0 xs']; [cbn in Hl; lia|]. cbn [app].
-    rewrite parse_module_cons. change (k0 :: xs' ++ c :: rest) with ((k0 :: xs') ++ c :: rest).
-    rewrite (stmt_ends_at_line_break_proof _ _ _ _ _ d Hlet Hlt Hn Hns Hnc). cbn [rbind].
-    destruct m as [|m']; [lia|]. rewrite IH by (cbn [length]; lia). cbn [rev]. rewrite <- app_assoc. reflexivity.
-  - rewrite parse_module_cons. cbn [parse_stmt]. rewrite Hk, Z.eqb_refl. cbn [rbind].
-    assert (Hsk : skip_semi false rest = rest).
-    { destruct rest as [|c r]; [reflexivity|]. cbn [skip_semi same_line_semi] in *. cbn [orb]. rewrite Hsl. reflexivity. }
-    rewrite Hsk. cbn [length] in Hm.
-    destruct m as [|m']; [lia|]. rewrite IH by lia. cbn [rev]. rewrite <- app_assoc. reflexivity.
+  - destruct (one_stmt _ _ _ Hone) as [Hl Hs].
+    destruct ts as [|k ts']; [cbn [length] in Hl; lia|].
+    rewrite parse_module_cons, (Hs (length (k :: ts'))) by lia. cbn [rbind].
+    destruct m as [|m']; [cbn [length] in Hm; lia|].
+    rewrite IH by lia. cbn [rev]. rewrite <- app_assoc. reflexivity.
 Qed.
 
-(* Every program made of expression statements and empty statements, each ExpressionStatement ended by a ';' (on any
-   line), by a line break before a token that cannot continue it, or by the end of the input, is parsed to exactly
-   that statement list. *)
+(* Every program made of expression statements, empty statements and labelled statements, each ExpressionStatement
+   ended by a ';' (on any line), by a line break before a token that cannot continue it, or by the end of the input,
+   is parsed to exactly that statement list. *)
 Theorem program_of_statements_proof : forall ts l, prog ts l -> parse_program ts = Ok l.
 Proof.
   intros ts l H. unfold parse_program. rewrite (prog_module _ _ H) by lia. reflexivity.
@@ -268,7 +266,8 @@ Qed.
 Theorem program_of_expression_full_proof :
   forall ts t, derives true Expression ts t -> let_decl_start ts = false -> parse_program ts = Ok [SExpr t].
 Proof.
-  intros ts t d Hlet. apply program_of_statements_proof. apply PG_eof. split; [exact d|]. rewrite app_nil_r. exact Hlet.
+  intros ts t d Hlet. apply program_of_statements_proof. apply (PG_cons ts (SExpr t) []); [|apply PG_nil].
+  apply O_eof. split; [exact d|]. rewrite app_nil_r. exact Hlet.
 Qed.
 
 (* ---- non-vacuity ------------------------------------------------------------------------------------------------------ *)
@@ -276,22 +275,31 @@ Qed.
 Definition semi (l : bool) : token := mkTok tt_SemicolonToken l [59].
 Definition idl (c : Z) : token := mkTok tt_IdentifierToken true [c].
 
-(* `a ; b <newline> ; <newline> ; a <newline> c` *)
-Example prog_example :
-  parse_program [ida; semi false; idb; semi true; semi true; ida; idl 99] = Ok [SExpr va; SExpr vb; SEmpty; SExpr va; SExpr vc].
+Definition colon : token := mkTok tt_ColonToken false [58].
+
+(* `a ; b <newline> ; <newline> ; a : a <newline> c` *)
+Definition prog_ex_tokens : list token := [ida; semi false; idb; semi true; semi true; ida; colon; ida; idl 99].
+Definition prog_ex_stmts : list stmt := [SExpr va; SExpr vb; SEmpty; SLabel [97] (SExpr va); SExpr vc].
+
+Example prog_example : parse_program prog_ex_tokens = Ok prog_ex_stmts.
 Proof. vm_compute. reflexivity. Qed.
 
-Example prog_example_derivable :
-  prog [ida; semi false; idb; semi true; semi true; ida; idl 99] [SExpr va; SExpr vb; SEmpty; SExpr va; SExpr vc].
+Example prog_example_derivable : prog prog_ex_tokens prog_ex_stmts.
 Proof.
   assert (D : forall c l, derives true Expression [mkTok tt_IdentifierToken l [c]] (EVar [c])).
   { intros c l. eapply derives_chain_star; [apply (reachb_sound 22 Expression Primary); lazy; reflexivity|].
     apply (D_ident true (mkTok tt_IdentifierToken l [c])). split; [reflexivity|vm_compute; discriminate]. }
-  apply (PG_semi [ida] va (semi false)); [split; [apply D|reflexivity]|reflexivity|].
-  apply (PG_semi [idb] vb (semi true)); [split; [apply D|reflexivity]|reflexivity|].
-  apply PG_empty; [reflexivity|reflexivity|].
-  apply (PG_asi [ida] va (idl 99) []); [split; [apply D|reflexivity]|reflexivity|vm_compute; reflexivity|vm_compute; discriminate|].
-  apply (PG_eof [idl 99] vc). split; [apply D|reflexivity].
+  unfold prog_ex_tokens, prog_ex_stmts.
+  eapply PG_cons; [apply (O_semi [ida] va (semi false)); [split; [apply D|reflexivity]|reflexivity]|].
+  eapply PG_cons; [apply (O_semi [idb] vb (semi true)); [split; [apply D|reflexivity]|reflexivity]|].
+  eapply PG_cons; [apply O_empty; reflexivity|].
+  eapply PG_cons.
+  { apply (O_label ida colon [ida; idl 99] (SExpr va) [idl 99]).
+    - repeat split; try reflexivity. vm_compute. discriminate.
+    - reflexivity.
+    - apply (O_asi [ida] va (idl 99) []); [split; [apply D|reflexivity]|reflexivity|vm_compute; reflexivity|vm_compute; discriminate|vm_compute; discriminate].
+    - reflexivity. }
+  eapply PG_cons; [|apply PG_nil]. apply (O_eof [idl 99] vc). split; [apply D|reflexivity].
 Qed.
 
 (* `let` as an identifier at the start of a program: `let = a`, `let(a)`; `let [a]` is the start of a declaration *)
